@@ -43,6 +43,8 @@ type hookCase struct {
 	Prior string `json:"prior,omitempty"`
 	// PriorShape: the earlier call's request: "" same as Req | "short" (FC17, the shortest frame) | "long" (FC16 with 100 registers)
 	PriorShape string `json:"prior_shape,omitempty"`
+	// ExplicitParser: the client's configuration names the standard response parser explicitly (see cli.Scenario)
+	ExplicitParser bool `json:"explicit_parser,omitempty"`
 }
 
 func scenario(c hookCase) (cli.Scenario, []byte, error) {
@@ -98,7 +100,7 @@ func scenario(c hookCase) (cli.Scenario, []byte, error) {
 		ev = append(ev, xport.Event{Kind: "eof", N: 0})
 	}
 	ev = append(ev, xport.Event{Kind: "ioerr", N: 0}) // backstop
-	return cli.Scenario{Kind: c.Kind, Req: c.Req, Stream: reply[:n], Events: ev, ReadTimeoutMs: 5000, CustomParse: c.CustomParse, Prior: c.Prior, PriorReq: priorReq(c)}, reply, nil
+	return cli.Scenario{Kind: c.Kind, Req: c.Req, Stream: reply[:n], Events: ev, ReadTimeoutMs: 5000, CustomParse: c.CustomParse, Prior: c.Prior, PriorReq: priorReq(c), ExplicitParser: c.ExplicitParser && !c.CustomParse}, reply, nil
 }
 
 func priorReq(c hookCase) *spec.Req { return cli.PriorShapeReq(c.PriorShape) }
@@ -291,6 +293,7 @@ func genHook(t *rapid.T, kinds []string) hookCase {
 		c.Terminal = rapid.SampledFrom([]string{"ioerr", "eof", "eof-with-bytes", "ioerr-with-bytes"}).Draw(t, "terminal")
 		c.CustomParse = rapid.Bool().Draw(t, "custom_parse")
 	}
+	c.ExplicitParser = !cli.IsSerial(c.Kind) && !c.CustomParse && rapid.IntRange(0, 2).Draw(t, "explicit_parser") == 0
 	if rapid.IntRange(0, 3).Draw(t, "with_prior") == 0 {
 		c.Prior = rapid.SampledFrom([]string{"success", "ioerr"}).Draw(t, "prior")
 		c.PriorShape = rapid.SampledFrom(cli.PriorShapes).Draw(t, "prior_shape")
